@@ -83,7 +83,12 @@ def dollar_quote_literal(text: str) -> str:
     return quote + text + quote
 
 
-def needs_quoting(string: str, allow_reserved: bool, allow_num: bool) -> bool:
+def needs_quoting(
+    string: str,
+    allow_reserved: bool,
+    allow_num: bool,
+    allow_partial_reserved: bool = True,
+) -> bool:
     if not string or string.startswith('@') or '::' in string:
         # some strings are illegal as identifiers and as such don't
         # require quoting
@@ -102,9 +107,16 @@ def needs_quoting(string: str, allow_reserved: bool, allow_num: bool) -> bool:
         and string in keywords.by_type[keywords.RESERVED_KEYWORD]
     )
 
+    # UNION, EXCEPT and INTERSECT can be used bare as pointer and type
+    # names, but not as ordinary identifiers.
+    is_partial_reserved = (
+        string in keywords.by_type[keywords.PARTIAL_RESERVED_KEYWORD]
+    )
+
     return (
         not isalnum
         or (not allow_reserved and is_reserved)
+        or (not allow_partial_reserved and is_partial_reserved)
     )
 
 
@@ -118,8 +130,11 @@ def quote_ident(
     force: bool = False,
     allow_reserved: bool = False,
     allow_num: bool = False,
+    allow_partial_reserved: bool = True,
 ) -> str:
-    if force or needs_quoting(string, allow_reserved, allow_num):
+    if force or needs_quoting(
+        string, allow_reserved, allow_num, allow_partial_reserved
+    ):
         return _quote_ident(string)
     else:
         return string
